@@ -1,2 +1,226 @@
-(* C10 - property theorems (being built: see Proofs.v). *)
-From SV Require Import Lib.Base C10.Model.
+(* C10 - Service, port and method selection is deterministic and matches the
+   WSDL.  Property theorems only: each is closed by `exact` of a lemma proved
+   in Proofs.v and followed by Print Assumptions.
+
+   Model.v: `run W o e` is what a client over the WSDL W with options o does
+   for the selector expression e (the three selector classes of
+   suds/client.py statement by statement, after the load step of
+   suds/wsdl.py); `route W o e` is what the property text fixes, computed
+   from the declarations.  All theorems hold for ANY number of services,
+   ports, bindings and operations and expressions of ANY depth. *)
+From SV Require Import Lib.Base C10.Model C10.Proofs.
+Local Open Scope Z_scope.
+
+(* The refinement.  wf: binding names distinct, operation names distinct
+   within a binding ("the" binding, "the" operation of the text). *)
+Theorem select_correct : forall W o e, wf W = true -> sat (route W o e) (run W o e) = true.
+Proof. exact select_correct_l. Qed.
+Print Assumptions select_correct.
+
+(* Never falls through to something undeclared - no hypothesis at all:
+   every request that leaves belongs to a declared service/port/operation
+   triple (that port's address unless the location option is set, that
+   operation's action, style and body root). *)
+Theorem routed_request_is_declared : forall W o e u a r,
+  run W o e = OSent u a r ->
+  exists s p b bst op,
+    In s (w_services W) /\ In p (s_ports s) /\
+    find_binding (w_bindings W) (p_binding p) = Some b /\ b_soap b = Some bst /\
+    In op (b_ops b) /\
+    u = match opt_location o with Some l => l | None => p_loc p end /\
+    a = match o_action op with Some x => x | None => 0%N end /\
+    r = body_root (w_tns W) (mk_method (w_tns W) bst (p_loc p) op).
+Proof. exact routed_request_is_declared_l. Qed.
+Print Assumptions routed_request_is_declared.
+
+(* Unknown service: an explicit key ... *)
+Theorem unknown_service_raises : forall W o k rest,
+  wf W = true -> loadable W = true ->
+  (2 <= length (w_services W))%nat -> opt_service o = None ->
+  pick s_name (w_services W) k = None ->
+  run W o (Item k :: rest) = ORaise ServiceNotFound.
+Proof. exact unknown_service_raises_l. Qed.
+Print Assumptions unknown_service_raises.
+
+(* ... or the default service option. *)
+Theorem unknown_default_service_raises : forall W o ds n k rest,
+  wf W = true -> loadable W = true ->
+  opt_service o = Some ds -> pick s_name (w_services W) ds = None ->
+  w_services W <> [] ->
+  run W o (Attr n :: rest) = ORaise ServiceNotFound /\
+  ((2 <= length (w_services W))%nat -> run W o (Item k :: rest) = ORaise ServiceNotFound).
+Proof. exact unknown_default_service_raises_l. Qed.
+Print Assumptions unknown_default_service_raises.
+
+(* Unknown port: the key in force is the default port option when set, else
+   the subscript. *)
+Theorem unknown_port_raises : forall W o ks s kp rest,
+  wf W = true -> loadable W = true ->
+  (2 <= length (w_services W))%nat -> opt_service o = None ->
+  pick s_name (w_services W) ks = Some s ->
+  soap_ports W s <> [] ->
+  pick p_name (soap_ports W s) (match opt_port o with Some dp => dp | None => kp end) = None ->
+  run W o (Item ks :: Item kp :: rest) = ORaise PortNotFound.
+Proof. exact unknown_port_raises_l. Qed.
+Print Assumptions unknown_port_raises.
+
+Theorem unknown_default_port_raises : forall W o ks s dp n rest,
+  wf W = true -> loadable W = true ->
+  (2 <= length (w_services W))%nat -> opt_service o = None ->
+  pick s_name (w_services W) ks = Some s ->
+  soap_ports W s <> [] -> opt_port o = Some dp ->
+  pick p_name (soap_ports W s) dp = None ->
+  run W o (Item ks :: Attr n :: rest) = ORaise PortNotFound.
+Proof. exact unknown_default_port_raises_l. Qed.
+Print Assumptions unknown_default_port_raises.
+
+(* Unknown operation of the selected port's binding. *)
+Theorem unknown_method_raises : forall W o ks s kp p b n st rest,
+  wf W = true -> loadable W = true ->
+  (2 <= length (w_services W))%nat -> opt_service o = None -> opt_port o = None ->
+  pick s_name (w_services W) ks = Some s ->
+  pick p_name (soap_ports W s) kp = Some p ->
+  binding_of W p = Some b ->
+  find (fun op => N.eqb n (o_name op)) (b_ops b) = None ->
+  st = Attr n \/ st = Item (KStr n) ->
+  run W o (Item ks :: Item kp :: st :: rest) = ORaise MethodNotFound.
+Proof. exact unknown_method_raises_l. Qed.
+Print Assumptions unknown_method_raises.
+
+(* service[ks][kp].n reaches exactly the declared endpoint, action and
+   binding style of that service/port pair. *)
+Theorem explicit_pair_exact : forall W o ks s kp p b bst n op st,
+  wf W = true -> loadable W = true ->
+  (2 <= length (w_services W))%nat -> opt_service o = None -> opt_port o = None ->
+  pick s_name (w_services W) ks = Some s ->
+  pick p_name (soap_ports W s) kp = Some p ->
+  binding_of W p = Some b -> b_soap b = Some bst ->
+  find (fun op => N.eqb n (o_name op)) (b_ops b) = Some op ->
+  st = Attr n \/ st = Item (KStr n) ->
+  run W o [Item ks; Item kp; st] =
+  OSent (match opt_location o with Some l => l | None => p_loc p end)
+        (match o_action op with Some a => a | None => 0%N end)
+        (match (match o_style op with Some x => x | None => bst end) with
+         | Doc => (w_tns W, o_elem op)
+         | Rpc => (match o_ns op with Some ns => ns | None => w_tns W end, n)
+         end).
+Proof. exact explicit_pair_exact_l. Qed.
+Print Assumptions explicit_pair_exact.
+
+(* A default port overrides subscripts (no hypothesis on the WSDL). *)
+Theorem default_port_overrides_subscript : forall W o dp,
+  opt_port o = Some dp ->
+  (forall svcs ps k k', eval_step o svcs (VPorts ps) (Item k) = eval_step o svcs (VPorts ps) (Item k')) /\
+  (forall ks k k' rest,
+     opt_service o = None -> length (w_services W) <> 1%nat ->
+     run W o (Item ks :: Item k :: rest) = run W o (Item ks :: Item k' :: rest)) /\
+  (forall k k' rest,
+     opt_service o <> None \/ length (w_services W) = 1%nat ->
+     run W o (Item k :: rest) = run W o (Item k' :: rest)).
+Proof. exact default_port_overrides_subscript_l. Qed.
+Print Assumptions default_port_overrides_subscript.
+
+(* With a single service the first subscript selects a port. *)
+Theorem single_service_subscript_is_port : forall W o s k rest,
+  wf W = true -> loadable W = true -> w_services W = [s] ->
+  sat (port_level W o s k rest) (run W o (Item k :: rest)) = true.
+Proof. exact single_service_subscript_is_port_l. Qed.
+Print Assumptions single_service_subscript_is_port.
+
+(* The location option replaces the URL and changes nothing else. *)
+Theorem location_changes_url_only : forall W o v e,
+  match run W (set_location None o) e with
+  | OSent u a r =>
+      run W (set_location v o) e = OSent (match v with Some l => l | None => u end) a r
+  | x => run W (set_location v o) e = x
+  end.
+Proof. exact location_changes_url_only_l. Qed.
+Print Assumptions location_changes_url_only.
+
+(* ... and only for the client it is set on (any option, any client). *)
+Theorem location_override_local : forall W ws i j f e,
+  i <> j -> world_call W (upd ws i f) j e = world_call W ws j e.
+Proof. exact location_override_local_l. Qed.
+Print Assumptions location_override_local.
+
+Theorem clone_snapshot_independent : forall W ws c o e,
+  nth_error ws c = Some o ->
+  let ws1 := fst (world_step W ws (EClone c)) in
+  let k := length ws in
+  world_call W ws1 k e = world_call W ws c e /\
+  world_call W ws1 c e = world_call W ws c e /\
+  (forall f, world_call W (upd ws1 c f) k e = world_call W ws c e) /\
+  (forall f, world_call W (upd ws1 k f) c e = world_call W ws c e).
+Proof. exact clone_snapshot_independent_l. Qed.
+Print Assumptions clone_snapshot_independent.
+
+(* Deterministic: a function of the WSDL, the client's own options and the
+   expression. *)
+Theorem selection_deterministic : forall W ws ws' c c' e,
+  nth_error ws c = nth_error ws' c' -> world_call W ws c e = world_call W ws' c' e.
+Proof. exact selection_deterministic_l. Qed.
+Print Assumptions selection_deterministic.
+
+(* ------------------------------------------------------------------ *)
+(* non-vacuity: a WSDL with two services, a non-SOAP port interleaved,  *)
+(* two SOAP bindings sharing the operation name 8                       *)
+(* ------------------------------------------------------------------ *)
+
+Definition exW : wsdl :=
+  mkW 1%N
+      [mkB 20 (Some Rpc) [mkOp 8 (Some 31%N) None (Some 40%N) 50; mkOp 9 None (Some Doc) None 51];
+       mkB 21 None [mkOp 7 None None None 0];
+       mkB 22 (Some Doc) [mkOp 7 (Some 32%N) None None 52; mkOp 8 (Some 33%N) None None 53]]%N
+      [mkS 2 [mkP 5 22 60; mkP 6 21 61; mkP 4 20 62]; mkS 3 [mkP 5 20 63]]%N.
+
+Definition exO : options := mkO None None None.
+
+Example select_correct_nonvacuous :
+  wf exW = true /\ loadable exW = true /\
+  run exW exO [Item (KStr 2%N); Item (KInt (-1)); Attr 8%N] = OSent 62%N 31%N (40%N, 8%N) /\
+  run exW exO [Attr 8%N] = OSent 60%N 33%N (1%N, 53%N) /\
+  run exW (mkO (Some (KInt 1)) None (Some 99%N)) [Item (KStr 5%N); Item (KStr 9%N)]
+    = OSent 99%N 0%N (1%N, 51%N).
+Proof. vm_compute. repeat split. Qed.
+
+Example unknown_names_nonvacuous :
+  (2 <= length (w_services exW))%nat /\
+  pick s_name (w_services exW) (KInt 2) = None /\
+  pick s_name (w_services exW) (KStr 5%N) = None /\
+  run exW exO [Item (KInt 2); Attr 8%N] = ORaise ServiceNotFound /\
+  (* the non-SOAP port 6 is not addressable; index 1 is the third declared port *)
+  run exW exO [Item (KInt 0); Item (KStr 6%N); Attr 7%N] = ORaise PortNotFound /\
+  run exW exO [Item (KInt 0); Item (KInt 1); Attr 8%N] = OSent 62%N 31%N (40%N, 8%N) /\
+  run exW exO [Item (KInt 0); Item (KInt 2); Attr 8%N] = ORaise PortNotFound /\
+  run exW exO [Item (KInt 1); Item (KInt 0); Attr 7%N] = ORaise MethodNotFound /\
+  run exW (mkO (Some (KStr 9%N)) None None) [Attr 8%N] = ORaise ServiceNotFound /\
+  run exW (mkO None (Some (KInt 1)) None) [Item (KInt 1); Attr 8%N] = ORaise PortNotFound.
+Proof. vm_compute. repeat split; lia. Qed.
+
+Example explicit_pair_exact_nonvacuous :
+  exists s p b op,
+    pick s_name (w_services exW) (KInt (-2)) = Some s /\
+    pick p_name (soap_ports exW s) (KStr 4%N) = Some p /\
+    binding_of exW p = Some b /\ b_soap b = Some Rpc /\
+    find (fun op => N.eqb 9%N (o_name op)) (b_ops b) = Some op /\
+    run exW exO [Item (KInt (-2)); Item (KStr 4%N); Item (KStr 9%N)] = OSent 62%N 0%N (1%N, 51%N).
+Proof. repeat eexists; vm_compute; reflexivity. Qed.
+
+Example default_port_nonvacuous :
+  let o := mkO None (Some (KStr 4%N)) None in
+  run exW o [Item (KInt 0); Item (KStr 5%N); Attr 8%N] = OSent 62%N 31%N (40%N, 8%N) /\
+  run exW o [Item (KInt 0); Item (KInt 7); Attr 8%N] = OSent 62%N 31%N (40%N, 8%N).
+Proof. vm_compute. split; reflexivity. Qed.
+
+Example single_service_nonvacuous :
+  let W := mkW 1%N (w_bindings exW) [mkS 2 [mkP 5 22 60; mkP 6 21 61; mkP 4 20 62]]%N in
+  wf W = true /\ loadable W = true /\
+  run W exO [Item (KStr 4%N); Attr 8%N] = OSent 62%N 31%N (40%N, 8%N) /\
+  run W exO [Item (KStr 2%N); Attr 8%N] = ORaise PortNotFound.
+Proof. vm_compute. repeat split. Qed.
+
+Example clients_nonvacuous :
+  let evs := [ESetLocation 0 (Some 99%N); EClone 0; ESetLocation 0 None; ESetService 1 (Some (KInt 1));
+              ECall 0 [Attr 8%N]; ECall 1 [Attr 8%N]] in
+  world_run exW [no_options] evs = [OSent 60%N 33%N (1%N, 53%N); OSent 99%N 31%N (40%N, 8%N)].
+Proof. vm_compute. reflexivity. Qed.
